@@ -94,6 +94,7 @@ ASSUMPTIONS = [
     "row-major flattening identifies N-d arrays and BlockArrays with vectors",
 ]
 
+MAX_SLICE_LEN = 10  # XRayTransform3D._project / _back_project
 KNOWN_XRAY2 = "xray2d-backproject-clamp"
 KNOWN_XRAY3 = "xray3d-backproject-clamp"
 KNOWN_ABEL = "abel-adj-odd-width"
@@ -139,7 +140,7 @@ def make_oracle(builder=None):
             # basis pairs (exhaustive for this configuration)
             r = D.check_operator(A, rng)
             for tag, det in r["fails"]:
-                if tag in ("adjoint", "adj-accepts", "adj-accepts-out", "out-size"):
+                if tag in ("adjoint", "adj-accepts", "adj-accepts-out", "out-size", "adj-faithful", "eval-raises"):
                     return {"obligation": tag, "detail": det, "operator": type(A).__name__, "meta": _js(r["meta"])}
         return None
 
@@ -274,6 +275,11 @@ def xray3_model(A):
         for (da, db), w in (((0, 0), ulw), ((1, 0), urw), ((0, 1), llw), ((1, 1), lrw)):
             w = np.asarray(w, dtype=np.float64).ravel()
             leaves.append({"t": "scat2", "np": nvox, "d0": det[0], "d1": det[1], "a": a, "b": b, "da": da, "db": db, "w": fs2b(w), "exact": False})
+            if ish[0] > MAX_SLICE_LEN:
+                # the slab loops of the code (Model: slabScatter / slabGather; theorem C01_xray3d_slab_loop): the indices
+                # of slab k computed with slice_offset = 10 k are the whole-volume ones at flat positions k*B + p
+                leaves[-1]["B"] = MAX_SLICE_LEN * ish[1] * ish[2]
+                leaves[-1]["nslab"] = -(-ish[0] // MAX_SLICE_LEN)
             for p in range(nvox):
                 if w[p] != 0.0 and not (a[p] + da < det[0] and b[p] + db < det[1]):
                     off_detector = True
@@ -299,7 +305,7 @@ def xray_tie(ctx, model, cfg, A, res):
                      note="scatter(drop)/gather(clamp) model of the projector differs from the implementation")
         return None
     # the exact-adjoint variant of the model must be an adjoint pair (instance of the theorem, sanity)
-    leaves_x = [dict(l, exact=True) for l in leaves]
+    leaves_x = [{k: v for k, v in dict(l, exact=True).items() if k not in ("B", "nslab")} for l in leaves]
     rep = model.call("derive", leaves=leaves_x, tree=tree)
     n, m = rep["nin"], rep["nout"]
     RE, _ = model_realmat(rep["eval"], m, n, False, False)
@@ -321,7 +327,7 @@ def xray_tie(ctx, model, cfg, A, res):
 
 
 KNOWN_MIXED = "mixed-operand-dtypes"
-DTYPE_TAGS = {"adj-accepts", "adj-accepts-out", "eval-dtype", "eval-clinear", "adj-clinear"}
+DTYPE_TAGS = {"adj-accepts", "adj-accepts-out", "eval-dtype", "eval-clinear", "adj-clinear", "eval-faithful", "adj-faithful"}
 
 
 def stack_tie(ctx, model, cfg, A, res, rng):
@@ -456,6 +462,8 @@ def run_config(ctx, model, cfg, rng, views=False, stream="grid"):
         ctx.disagree("adjoint.basis_pairs", {"cfg": cfg}, {"fails": _js(res["fails"]), "meta": _js(meta)},
                      "matrix(adj) = matrix(eval)^H; adj accepts conforming y", oracle=make_oracle(), known_id=known)
         return res
+    if M is not None and not meta.get("empty_space"):
+        check_rmatmul(ctx, cfg, A, res, rng)
     if views and M is not None and not meta.get("empty_space"):
         check_views(ctx, cfg, A, res, rng)
     return res
@@ -496,6 +504,52 @@ def check_views(ctx, cfg, A, res, rng):
             known = classify_known(ctx, None, cfg, A, {"fails": fails}, view=name)
             ctx.disagree(f"adjoint.view_{name}", {"cfg": cfg, "view": name}, {"fails": _js(fails), "meta": _js(rB["meta"])},
                          {"T": "M^T", "H": "M^H", "conj": "conj(M)", "gram": "M^H M"}[name], oracle=view_oracle(name), known_id=known)
+
+
+def check_rmatmul(ctx, cfg, A, res, rng):
+    """`y @ A` (LinearOperator.__rmatmul__: `self.adj(y.conj().T).conj().T`) is the vector-matrix product y^T M = M^T y
+    (same closure as `A.T`: theorem C01_T_unconj); only for vector spaces (`.T` of an N-d array reverses its axes)"""
+    M = res["M"]
+    in_shape, out_shape = D.norm_shape(A.input_shape), D.norm_shape(A.output_shape)
+    cin, cout = D.is_complex(A.input_dtype), D.is_complex(A.output_dtype)
+    if D.is_nested(in_shape) or D.is_nested(out_shape) or len(in_shape) != 1 or len(out_shape) != 1 or cin != cout or M is None:
+        return
+    yv = D.random_vec(rng, out_shape, A.output_dtype)
+    want = M.T @ yv
+    case = {"cfg": cfg, "view": "rmatmul", "y": D._js(yv)}
+    ctx.case({"stream": "view", "view": "rmatmul", "cls": cfg["cls"]}, ("view", "rmatmul", G.key_of(cfg)))
+    ctx.count("view:rmatmul")
+    try:
+        with warnings.catch_warnings():
+            warnings.simplefilter("ignore")
+            got = D.flatten(D.unflatten(yv, out_shape, A.output_dtype) @ A)
+    except Exception as e:  # noqa: BLE001
+        ctx.disagree("adjoint.rmatmul", case, {"raised": repr(e)[:200]}, "y @ A = M^T y", oracle=rmatmul_oracle)
+        return
+    if got.shape != want.shape or not D.mat_close(got.reshape(1, -1), want.reshape(1, -1), res.get("tol", D.TOL64)):
+        ctx.disagree("adjoint.rmatmul", case, {"y@A": D._js(got)}, {"M^T y": D._js(want)}, oracle=rmatmul_oracle)
+
+
+def rmatmul_oracle(case):
+    """<A x, conj y> = (y @ A) . x  on the implementation (the defining property of the vector-matrix product)"""
+    cfg = case["cfg"]
+    with warnings.catch_warnings():
+        warnings.simplefilter("ignore")
+        A = G.build(cfg)
+        in_shape, out_shape = D.norm_shape(A.input_shape), D.norm_shape(A.output_shape)
+        rng = np.random.Generator(np.random.PCG64(4242))
+        for _ in range(4):
+            yv = D.random_vec(rng, out_shape, A.output_dtype)
+            xv = D.random_vec(rng, in_shape, A.input_dtype)
+            try:
+                yA = D.flatten(D.unflatten(yv, out_shape, A.output_dtype) @ A)
+            except Exception as e:  # noqa: BLE001
+                return {"y": D._js(yv), "y@A raised": repr(e)[:200]}
+            Ax = D.flatten(A(D.unflatten(xv, in_shape, A.input_dtype)))
+            lhs, rhs = np.sum(yv * Ax), np.sum(yA * xv)
+            if abs(lhs - rhs) > D.tol_for(A.input_dtype, A.output_dtype) * max(xv.size, yv.size) * (1 + abs(lhs) + abs(rhs)):
+                return {"x": D._js(xv), "y": D._js(yv), "y.(A x)": D._jc(lhs), "(y@A).x": D._jc(rhs)}
+    return None
 
 
 def view_oracle(name):
@@ -815,7 +869,7 @@ def types_stream(ctx, model, rng):
     acceptance at construction, result type / error kind of D(x) and D.adj(y) for y of every dtype - model vs code at
     EVERY node; instance of C01_adj_total on the code"""
     coded = ctx.is_known(Y.KNOWN_T)  # `.T` as the code has it while the finding is open, else with the repaired dtypes
-    ntrees = ctx.n(36, 260)
+    ntrees = ctx.n(60, 300)
     maxd = ctx.n(3, 4)
     for t in range(ntrees):
         g = Y.Gen(rng, [0.0, 0.15, 0.4][t % 3])
@@ -993,7 +1047,11 @@ def search(ctx, model, why):
 def replay(ctx, model, case):
     common.setup_scico()
     c = case.get("case", case)
-    if "view" in c:
+    if c.get("types"):
+        r = Y.total_oracle(c)
+    elif c.get("view") == "rmatmul":
+        r = rmatmul_oracle(c)
+    elif "view" in c:
         r = view_oracle(c["view"])(c)
     else:
         r = make_oracle()(c)
